@@ -4,6 +4,7 @@ mod config;
 mod distro;
 mod indexfile;
 mod logfile;
+mod logstore;
 mod naming;
 mod sequence;
 mod util;
@@ -18,6 +19,7 @@ fn main() {
         "distro" => distro::run(),
         "indexfile" => indexfile::run(),
         "logfile" => logfile::run(),
+        "logstore" => logstore::run(),
         "naming" => naming::run(),
         "config" => config::run(),
         "openapi" | "console" | "perm" => auth::run(model),
